@@ -248,9 +248,12 @@ func HarnessC35Lists() {
 		want := 0
 		for i := range cids {
 			if ms[i].has && mat[i].has && nowOff-mat[i].off >= interval {
-				w := ms[i]
-				ms[i] = zz35Want{}
-				mp.add(i, w.prio, w.typ)
+				// the want is pending again; whether the sent list keeps a record of it meanwhile is left
+				// open (both are consistent with "the peer may still hold it"), anything else is not
+				mp.add(i, ms[i].prio, ms[i].typ)
+				if !r.sent.Has(cids[i]) {
+					ms[i] = zz35Want{}
+				}
 				want++
 			}
 		}
